@@ -94,6 +94,12 @@ fn ikm(rng: &mut Prng) -> B {
 
 fn rng_script(rng: &mut Prng, kem: KemId) -> B {
     let nsk = kem.rfc_sizes().2;
+    if kem == KemId::P256 && rng.chance(1, 64) {
+        let v = unhex(P256_RETRY_RNG[0]);
+        if refhpke::derive_keypair(kem, &v).2 > 0 {
+            return b(v);
+        }
+    }
     match rng.below(10) {
         0 => b(vec![0u8; nsk]),
         1 => b(vec![0xFFu8; nsk]),
@@ -291,6 +297,9 @@ pub fn gen_c02(rng: &mut Prng, run: u64, _t: &Tier) -> Vec<Ev> {
 // ---------------------------------------------------------------------------------- C03
 
 pub const P256_RETRY_IKM: [&str; 3] = ["00000007044f20b3", "0000000b09d5b28e", "00000002328b1efb"];
+/// 32-byte RNG outputs whose first P-256 DeriveKeyPair candidate is >= n (found by a 2^32-scale search;
+/// checked against refhpke at generation time: unused if the model does not take the retry path)
+pub const P256_RETRY_RNG: [&str; 1] = ["a0a1a2a3a4a5a6a7a8a9aaabacadaeafb0b1b2b3b4b5b60a0000000006334a16"];
 
 pub fn gen_c03(rng: &mut Prng, run: u64, _t: &Tier) -> Vec<Ev> {
     let mut ev = vec![];
@@ -518,7 +527,12 @@ pub fn gen_history(rng: &mut Prng, run: u64, o: &HistOpts) -> Vec<Ev> {
             ev.push(Ev::Seal { c, pt, aad, inplace: rng.chance(1, 2) });
             after_special = true;
         } else if roll < 94 && o.teardown {
-            ev.push(Ev::Teardown { c, role: if rng.chance(1, 2) { Role::S } else { Role::R } });
+            let role = if rng.chance(1, 2) { Role::S } else { Role::R };
+            if rng.chance(1, 3) {
+                ev.push(Ev::TeardownUnwinding { c, role });
+            } else {
+                ev.push(Ev::Teardown { c, role });
+            }
         } else if roll < 97 {
             let l = *rng.pick(&[0usize, 1, 15, 16, 17, 40, 300]);
             let tag = if rng.chance(1, 2) { Some(b({ let l = *rng.pick(&[0usize, 15, 16, 16, 16, 17]); rng.bytes(l) })) } else { None };
@@ -528,6 +542,10 @@ pub fn gen_history(rng: &mut Prng, run: u64, o: &HistOpts) -> Vec<Ev> {
             ev.push(Ev::Seal { c, pt, aad, inplace: rng.chance(1, 2) });
             ev.push(Ev::Deliver { r: c, from: c, rec: RecRef::Next, fault: Fault::None, api: open_api(rng) });
         }
+    }
+    if o.jumps && rng.chance(1, 40) {
+        ev.push(Ev::RejectBurst { r: 0, from: 0, n: *rng.pick(&[300u32, 66_000]) });
+        ev.push(Ev::Deliver { r: 0, from: 0, rec: RecRef::Next, fault: Fault::BitFlip(Field::Tag, 3), api: OpenApi::Alloc });
     }
     if o.jumps && rng.chance(1, 6) {
         for c in 0..ns {
@@ -613,6 +631,13 @@ pub fn gen_c06(rng: &mut Prng, run: u64, t: &Tier) -> Vec<Ev> {
         let n = if t.thorough { 3000 } else { 700 };
         ev.push(Ev::SealMany { c: 0, n, len: *rng.pick(&[0usize, 0, 0, 1, 5]), inplace: rng.chance(1, 2) });
         ev.push(Ev::StripZerosProbe { r: 0, from: 0 });
+    }
+    // soak: more than 2^16 rejected deliveries on one receiver, then the sweep of one more record
+    if rng.chance(1, 12) {
+        ev.push(Ev::RejectBurst { r: 0, from: 0, n: 66_000 });
+        let (pt, aad) = msg(rng, false);
+        ev.push(Ev::Seal { c: 0, pt, aad, inplace: false });
+        ev.push(Ev::TamperSweep { r: 0, from: 0, rec: nrec, api: OpenApi::Alloc, max_bits: 256, only: None });
     }
     // same position in a restarted session with fresh randomness: its records must not splice in
     if rng.chance(1, 3) {
@@ -1247,6 +1272,10 @@ pub fn gen_c12(rng: &mut Prng, run: u64, _t: &Tier) -> Vec<Ev> {
     for l in 0..=2 * size + 2 {
         let mut v = val.clone();
         v.resize(l, 0);
+        if l > 0 && l != size && rng.chance(1, 2) {
+            // wrong-length inputs with every kind of leading byte (SEC1 tags, 0x00, 0xff, random)
+            v[0] = *rng.pick(&[0x02u8, 0x03, 0x04, 0x05, 0x06, 0x07, 0x00, 0xff, 0x80, 0x01]);
+        }
         ev.push(Ev::DecodeProbe { suite, kind, bytes: b(v) });
         ev.push(Ev::WriteExactProbe { suite, kind, bytes: b(val.clone()), buflen: l });
     }
@@ -1490,6 +1519,11 @@ pub fn gen_c15(rng: &mut Prng, run: u64, _t: &Tier) -> Vec<Ev> {
     for (a, c) in [(0usize, 0usize), (0, 1), (1, 0), (1, 1)] {
         ev.push(Ev::PskProbe { psk: b(vec![0u8; a]), psk_id: b(vec![0u8; c]) });
     }
+    {
+        // equal contents are a legal bundle too
+        let same = rng.var_bytes(64);
+        ev.push(Ev::PskProbe { psk: b(same.clone()), psk_id: b(same) });
+    }
     // sessions against the model: psk != psk_id so that a swap is visible
     let (suite, mode) = suite_mode_biased(run, rng, &ALL_AEADS, false);
     let mut cfg = gen_cfg(rng, suite, mode, 100);
@@ -1497,6 +1531,8 @@ pub fn gen_c15(rng: &mut Prng, run: u64, _t: &Tier) -> Vec<Ev> {
         // the (permitted) empty bundle
         cfg.psk = b(vec![]);
         cfg.psk_id = b(vec![]);
+    } else if mode.has_psk() && rng.chance(1, 10) {
+        cfg.psk_id = cfg.psk.clone();
     }
     setup_pair(&mut ev, rng, 0, &cfg, false, false);
     if suite.aead.seals() {
@@ -1549,8 +1585,13 @@ pub fn gen_c16(rng: &mut Prng, run: u64, _t: &Tier) -> Vec<Ev> {
         ev.push(Ev::Seal { c: 0, pt: b(vec![1, 2, 3]), aad: b(vec![]), inplace: false });
     }
     for c in 0..o.sessions {
-        ev.push(Ev::Teardown { c, role: Role::S });
-        ev.push(Ev::Teardown { c, role: Role::R });
+        if rng.chance(1, 4) {
+            ev.push(Ev::TeardownUnwinding { c, role: Role::S });
+            ev.push(Ev::TeardownUnwinding { c, role: Role::R });
+        } else {
+            ev.push(Ev::Teardown { c, role: Role::S });
+            ev.push(Ev::Teardown { c, role: Role::R });
+        }
     }
     // KEM-only exchanges for the shared secret
     let kem = KEMS[(run % 4) as usize];
